@@ -1,6 +1,7 @@
 ------------------------------ MODULE MocksCons ------------------------------
 (* The consumer mock of package sarama/mocks (Consumer + PartitionConsumer) as a state machine
-   over one topic with partitions 0 and 1 registered at will and partition 2 never registered:
+   over the slots of MocksOracle (topic tc / td x partition 0 / 1, registered at will; the cfg picks the
+   slots in use with Slots) and one partition that is never registered:
 
      ExpectCP(p, off)     Consumer.ExpectConsumePartition
      YieldMsg(p) / YieldErr(p) / Drain(p, w)   PartitionConsumer.YieldMessage / YieldError /
@@ -8,7 +9,9 @@
      Consume(p, off)      Consumer.ConsumePartition
      ReadMsg(p) / ReadErr(p)   one receive from Messages() / Errors()
      AsyncClose(p) / ClosePC(p) / CloseAll     the close orders
-   HighWaterMarkOffset of both partitions is part of every step's observation.
+     SetMeta(v) / TopicsOp / PartitionsOp(t)   SetTopicMetadata, Topics(), Partitions(topic)
+   PartitionConsumer.HighWaterMarkOffset() and Consumer.HighWaterMarks() of all slots are part of every
+   step's observation.  OpSet (cfg) restricts the operations of a family.
 
    Steps are computed with MocksOracle's C* functions (shared with the trace observer); the
    invariants restate the consumer clauses of C20 declaratively over the history.
@@ -17,24 +20,43 @@
    graph); with AllPaths = TRUE every path up to MaxOps is a case.                          *)
 EXTENDS MocksOracle, Json
 
-CONSTANTS MaxOps, MaxYield, MaxErr, AllPaths, SymBreak, EmitCases
+CONSTANTS MaxOps, MaxYield, MaxErr, AllPaths, SymBreak, Slots, OpSet, EmitCases
 
-VARIABLES cs, hist
-vars == <<cs, hist>>
+VARIABLES cs, md, hist
+vars == <<cs, md, hist>>
 
 Oldest == -2
 EOffs == {Oldest, AnyOff}       \* offsets a test registers
 COffs == {Oldest, 7}            \* offsets a test consumes from
 
-Hwms(s) == [k \in 1..2 |-> IF s[k - 1].reg THEN CHwm(s[k - 1]) ELSE -1]
+Hwms(s) == [k \in 1..4 |-> IF s[k - 1].reg THEN CHwm(s[k - 1]) ELSE -1]
 HE(op, p, off, w, id, r) ==
   [op |-> op, p |-> p, off |-> off, w |-> w, id |-> id, ret |-> r.ret, rep |-> r.rep, val |-> r.val,
-   errs |-> r.errs, hwm |-> Hwms(r.cs)]
-Do(op, p, off, w, id, r) == cs' = r.cs /\ hist' = Append(hist, HE(op, p, off, w, id, r))
+   errs |-> r.errs, tset |-> {}, hwm |-> Hwms(r.cs)]
+Do(op, p, off, w, id, r) ==
+  /\ op \in OpSet
+  /\ cs' = r.cs /\ hist' = Append(hist, HE(op, p, off, w, id, r)) /\ UNCHANGED md
 
-Init == cs = CInit /\ hist = <<>>
+Init == cs = CInit /\ md = 0 /\ hist = <<>>
 
-\* SymBreak: partitions 0 and 1 are interchangeable, so partition 1 is only registered after partition 0
+\* topic metadata
+MetaHE(op, w, id, ret, rep, errs, tset) ==
+  [op |-> op, p |-> 0, off |-> 0, w |-> w, id |-> id, ret |-> ret, rep |-> rep, val |-> <<>>,
+   errs |-> errs, tset |-> tset, hwm |-> Hwms(cs)]
+SetMeta(v) ==
+  /\ "setmeta" \in OpSet
+  /\ md' = v /\ hist' = Append(hist, MetaHE("setmeta", "-", v, "ok", <<>>, <<>>, {})) /\ UNCHANGED cs
+TopicsOp ==
+  /\ "topics" \in OpSet
+  /\ LET r == CTopics(md) IN hist' = Append(hist, MetaHE("topics", "-", 0, r.ret, r.rep, <<>>, r.tset))
+  /\ UNCHANGED <<cs, md>>
+PartitionsOp(t) ==
+  /\ "partitions" \in OpSet
+  /\ LET r == CPartitions(md, t) IN hist' = Append(hist, MetaHE("partitions", t, 0, r.ret, r.rep, r.parts, {}))
+  /\ UNCHANGED <<cs, md>>
+
+\* SymBreak (only meaningful for Slots = {0, 1}): partitions 0 and 1 of one topic are interchangeable,
+\* so partition 1 is only registered after partition 0
 ExpectCP(p, off) ==
   /\ ~cs[p].reg \/ cs[p].eoff = off
   /\ SymBreak => (p = 0 \/ cs[0].reg)
@@ -57,14 +79,17 @@ CloseAll == Do("closeall", 0, 0, "-", 0, CCloseAll(cs))
 
 Next ==
   /\ Len(hist) < MaxOps
-  /\ \/ \E p \in CParts, off \in EOffs : ExpectCP(p, off)
-     \/ \E p \in CParts : YieldMsg(p) \/ YieldErr(p) \/ ReadMsg(p) \/ ReadErr(p) \/ AsyncClose(p) \/ ClosePC(p)
-     \/ \E p \in CParts, w \in {"m", "e"} : Drain(p, w)
-     \/ \E p \in {0, 1, 2}, off \in COffs : Consume(p, off)
+  /\ \/ \E p \in Slots, off \in EOffs : ExpectCP(p, off)
+     \/ \E p \in Slots : YieldMsg(p) \/ YieldErr(p) \/ ReadMsg(p) \/ ReadErr(p) \/ AsyncClose(p) \/ ClosePC(p)
+     \/ \E p \in Slots, w \in {"m", "e"} : Drain(p, w)
+     \/ \E p \in Slots \cup {CNever}, off \in COffs : Consume(p, off)
      \/ CloseAll
+     \/ \E v \in {1, 2} : SetMeta(v)
+     \/ TopicsOp
+     \/ \E t \in {"tc", "td", "tx"} : PartitionsOp(t)
 Spec == Init /\ [][Next]_vars
 
-View == IF AllPaths THEN <<cs, hist>> ELSE <<cs>>
+View == IF AllPaths THEN <<cs, md, hist>> ELSE <<cs, md>>
 
 -----------------------------------------------------------------------------
 (* ---------- the consumer clauses of C20, declaratively over the history ---------- *)
@@ -114,15 +139,31 @@ PendE(p, i) == IF ClosedBefore(p, i) THEN 0
                ELSE Cardinality(On(p, {"yielderr"}) \cap 1..(i - 1)) - Cardinality(On(p, {"readerr"}) \cap 1..(i - 1))
 DrainSet(p, w, i) == \E j \in On(p, {"drain"}) : j < i /\ hist[j].w = w
 
+\* Topics() / Partitions() answer from the metadata set last
+MetaBefore(i) ==
+  LET S == {j \in 1..(i - 1) : hist[j].op = "setmeta"} IN
+  IF S = {} THEN 0 ELSE hist[CHOOSE j \in S : \A q \in S : q <= j].id
+MetadataResult ==
+  \A i \in Idx :
+    LET v == MetaBefore(i) IN
+    /\ hist[i].op = "topics" =>
+         IF v = 0 THEN hist[i].ret = "outofbrokers" ELSE hist[i].ret = "ok" /\ hist[i].tset = MetaTopics(v)
+    /\ hist[i].op = "partitions" =>
+         IF v = 0 THEN hist[i].ret = "outofbrokers"
+         ELSE IF hist[i].w \notin MetaTopics(v) THEN hist[i].ret = "unknowntopic"
+         ELSE hist[i].ret = "ok" /\ hist[i].errs = MetaParts(v, hist[i].w)
+
 \* every deviation is reported to the ErrorReporter, and nothing else is
 AllRep == Flat(SeqOf(Idx, LAMBDA i : hist[i].rep))
 Closes(p) == {i \in Idx : hist[i].op = "closeall" \/ (hist[i].op = "closepc" /\ hist[i].p = p)}
 ReporterExact ==
   LET b == BagOf(AllRep)
       cnt(x) == IF x \in DOMAIN b THEN b[x] ELSE 0
-      Sum(f(_)) == f(0) + f(1)
+      Sum(f(_)) == f(0) + f(1) + f(2) + f(3)
   IN
-  /\ DOMAIN b \subseteq {"unexpected_partition", "unexpected_offset", "not_started", "errors_not_drained", "messages_not_drained"}
+  /\ DOMAIN b \subseteq {"unexpected_partition", "unexpected_offset", "not_started", "errors_not_drained", "messages_not_drained",
+                          "no_metadata"}
+  /\ cnt("no_metadata") = Cardinality({i \in Idx : hist[i].op \in {"topics", "partitions"} /\ MetaBefore(i) = 0})
   /\ cnt("unexpected_partition") = Cardinality({i \in Idx : hist[i].op = "consume" /\ hist[i].ret = "noexp"})
   /\ cnt("unexpected_offset") =
        Cardinality({i \in Idx : hist[i].op = "consume" /\ hist[i].ret = "ok"
